@@ -70,7 +70,10 @@ pub fn reference(p: &Program, input: &State, max_steps: u64) -> Result<(State, V
     if let Err(e) = ctx.run_main() {
         return Err(format!("ctx reference left the defined domain: {:?}", e));
     }
-    if diff_states(p, &iso.st, &ctx.st, true).is_some() || iso.trace != ctx.trace {
+    // (the digests differ as soon as the two readings take different branches or store different
+    // values anywhere: differences that cancel out in the final state - the compiler may follow
+    // one reading here and the other there - are ambiguous too)
+    if diff_states(p, &iso.st, &ctx.st, true).is_some() || iso.trace != ctx.trace || iso.flow != ctx.flow {
         return Err("ambiguous (8-bit vs promoted evaluation differ)".into());
     }
     Ok((iso.st, iso.trace, iso.steps))
